@@ -149,14 +149,17 @@ PROPS = {
         "the claim. The forward model is not compared against an independent transcription of Li et al. (shared pow symbols would make "
         "that comparison syntactic only)."),
     "C17": sprop(
-        "What can be decided of this property: that the mask-generic code path (what every SIMD lane computes: all lazy_select branches "
-        "evaluated and blended by masks, the separate SIMD branches of RGB->HSV/HSL) equals the scalar code path (what f32/f64 compute). "
-        "The real functions are executed with SymM (one DAG) and with SymF (one run per decision vector) and z3 searches the whole input "
-        "box for an input where an output differs by more than the tolerance.",
-        "Trusted: z3; SymM's trait impls model palette's glue for the `wide` crate types (is_valid_divisor = |x| >= MIN_POSITIVE, clamp = "
-        "max then min ...). The arithmetic of the wide crate itself, palette's num/wide.rs, bool_mask/wide.rs and the array<->SIMD "
-        "packing in macros/simd.rs cannot be executed symbolically (concrete SIMD types; Kani rejects float SIMD intrinsics): that half "
-        "of C17 is not applicable, a mutation inside num/wide.rs is not detected. f32-vs-f64 agreement is not checked."),
+        "Two halves. Engine S: the mask-generic code path (what every SIMD lane computes: all lazy_select branches evaluated and blended "
+        "by masks, the separate SIMD branches of RGB->HSV/HSL) equals the scalar code path (what f32/f64 compute); the real functions are "
+        "executed with SymM (one DAG) and with SymF (one run per decision vector) and z3 searches the whole input box for an input where an "
+        "output differs by more than the tolerance. Engine K: palette's glue for the real `wide` types (num/wide.rs, bool_mask/wide.rs, "
+        "angle/wide.rs, macros/simd.rs) compiled with the `wide` feature: comparisons, masks, select, min/max/clamp/abs/floor/ceil/round/"
+        "signum, is_valid_divisor, hue normalisation and angle equality, array <-> SIMD colour packing, bounds / clamp of SIMD colours and "
+        "of slices of them, lane by lane against the scalar function for every lane input (all lanes symbolic, bit for bit).",
+        "Trusted: z3, Kani/CBMC/cadical and Kani's model of the portable SIMD intrinsics the wide crate compiles to (no AVX/SSE4.1 "
+        "target feature: wide's fallback code paths are the ones checked). SymM's trait impls model palette's glue in Engine S. "
+        "Transcendental functions of the wide crate (sin, cos, powf, ln, exp, cbrt) and f32-vs-f64 agreement are not checked.",
+        engines=("kani", "symx")),
     "C14": sprop(
         "Symbolic execution of the real RGB<->XYZ, XYZ->Lab/Luv/Oklab and chromatic-adaptation code for every RGB standard / white point "
         "pair; z3 decides, for ALL greys / colours in the stated boxes, that white maps to the white point, neutrals stay neutral, the "
